@@ -4,7 +4,7 @@ import nodecheck
 PROFILE = dict(outbound=0.5)
 W = nodecheck.weights(close=2.5, readerr=2, accept=5, cer=9, tick=5)
 N_QUICK, N_THOROUGH, LENGTH = 60, 1500, 18
-THEMES = (("handshake_in", 2, 60, 3, 600), ("handshake_out", 2, 60, 3, 600), ("ready", 2, 40, 2, 2000), ("two_peers", 300, 0, None, 0), ("realms", None, 0, None, 0))
+THEMES = (("handshake_in", 2, 60, 3, 600), ("handshake_out", 2, 60, 3, 600), ("ready", 2, 40, 2, 2000), ("two_peers", 300, 0, None, 0), ("realms", None, 0, None, 0), ("reconnect_after_dpr", 200, 0, None, 0), ("refused_twin", 100, 0, None, 0))
 FILES = ["Props/C13.v"]
 
 
